@@ -308,3 +308,105 @@ def supports(front, framing):
     if framing == 'tls':
         return front in ('sync-tcp', 'aio-tcp')
     return True
+
+
+# ------------------------------------------------------------------ several connections, interleaved
+def feed_multi(front, framing, context, conns, order, **opts):
+    """conns: list (one per connection) of lists of chunks; order: sequence of connection indices saying whose
+    next chunk is delivered next.  Returns one Result per connection.  Only stream front-ends."""
+    results = [Result() for _ in conns]
+    queues = [list(c) for c in conns]
+    if front == 'tw-tcp':
+        from twisted.test import proto_helpers
+        fac = tw().ModbusServerFactory(context, framer=FRAMER[framing], ignore_missing_slaves=opts.get('ignore_missing_slaves', False))
+        protos = []
+        for res in results:
+            p = fac.buildProtocol(None)
+            tr = proto_helpers.StringTransport()
+            p.makeConnection(tr)
+            protos.append((p, tr))
+        for i in order:
+            if not queues[i] or results[i].closed:
+                continue
+            p, tr = protos[i]
+            results[i].fed += 1
+            try:
+                p.dataReceived(queues[i].pop(0))
+            except Exception as e:  # noqa
+                results[i].escaped.append(e)
+                results[i].closed = True
+            results[i].out = tr.value()
+        return results
+    if front == 'aio-tcp':
+        async def go():
+            srv = owner(framing, context, **opts)
+            hs = []
+            for res in results:
+                h = aio.ModbusConnectedRequestHandler(srv)
+                h.connection_made(FakeTransport(res))
+                hs.append(h)
+            for i in order:
+                if not queues[i] or results[i].closed:
+                    continue
+                results[i].fed += 1
+                results[i].per_read.append(b'')
+                hs[i].data_received(queues[i].pop(0))
+                await _drain(hs[i])
+            for h in hs:
+                h.connection_lost(None)
+            await asyncio.sleep(0)
+        _loop().run_until_complete(go())
+        return results
+    if front in ('sync-tcp', 'sync-serial'):
+        from .doubles.sched import Sched
+        srv = owner(framing, context, **opts)
+        plan = list(order)
+        state = {'warm': list(range(len(conns)))}
+
+        def chooser(step, cands):
+            # first let every handler thread run up to its first recv, then follow the delivery order
+            if state['warm']:
+                want = 'C%d' % state['warm'].pop(0)
+            else:
+                while plan and not queues[plan[0]]:
+                    plan.pop(0)
+                want = 'C%d' % plan.pop(0) if plan else cands[0]
+            return cands.index(want) if want in cands else 0
+        chooser.wants_names = True
+        sched = Sched(chooser)
+
+        class GatedSock(FakeSock):
+            def __init__(self, idx, res):
+                FakeSock.__init__(self, [], res, serial=(front == 'sync-serial'))
+                self.idx = idx
+
+            def recv(self, n):
+                sched.yield_point(('recv', self.idx))
+                if queues[self.idx]:
+                    self.res.fed += 1
+                    self.res.per_read.append(b'')
+                    return queues[self.idx].pop(0)
+                if self.serial and self.handler is not None:
+                    self.handler.running = False
+                return b''
+            read = recv
+        for i, res in enumerate(results):
+            sock = GatedSock(i, res)
+
+            def body(sock=sock, res=res):
+                try:
+                    if front == 'sync-tcp':
+                        sy.ModbusConnectedRequestHandler(sock, PEER, srv)
+                    else:
+                        h = sy.CustomSingleRequestHandler(sock, ('dev', 'dev'), srv)
+                        sock.handler = h
+                        h.handle()
+                except Exception as e:  # noqa
+                    res.escaped.append(e)
+            sched.spawn('C%d' % i, body)
+        st = sched.run()
+        if st != 'OK':
+            for res in results:
+                res.stuck = True
+        return results
+    raise ValueError(front)
